@@ -93,14 +93,14 @@ def share_rule(ctx, repo, rule):
                 normalised = s
         env = {k: v for k, v in A.single_assign_env(fi.node, own_nodes).items() if k not in (F, L, X, N, T)}
         # the outer-product local of the residual balance stands for N*X
-        resid_atoms = set()
+        resid_polys = []
         for k, v in list(env.items()):
             m = A.mono(v, {})
             if m is not None and m[0] == 1 and m[1] == {N: 1, X: 1}:
-                resid_atoms.add("np.sum(%s, axis=1)" % k)
+                resid_polys.append(A.poly(A.parse("%s - np.sum(%s, axis=1)" % (N, k))))
                 env.pop(k)
-        resid_atoms.add("sum(%s * %s)" % (N, X))
-        resid_atoms.add("np.sum(%s * %s)" % (N, X))
+        resid_polys.append(A.poly(A.parse("%s - sum(%s * %s)" % (N, N, X))))
+        resid_polys.append(A.poly(A.parse("%s - np.sum(%s * %s)" % (N, N, X))))
 
         def form(p):
             """classify a polynomial: 'share', 'share/T', 'residual' or None"""
@@ -108,10 +108,8 @@ def share_rule(ctx, repo, rule):
                 return "share"
             if T is not None and p == {tuple(sorted([(F, 1), (N, 1), (T, -1)])): 1}:
                 return "share/T"
-            if len(p) == 2 and p.get(((N, 1),)) == 1:
-                other = [m for m in p if m != ((N, 1),)][0]
-                if p[other] == -1 and len(other) == 1 and other[0][1] == 1 and other[0][0] in resid_atoms:
-                    return "residual"
+            if p in resid_polys:
+                return "residual"
             return None
 
         # the expressions that reach a link value / a destination
@@ -222,6 +220,11 @@ def accumulator_rule(ctx, repo, rule, sites=None, minimum=12, what="the per-step
                     if tt == key or tt in aug_targets:
                         if not any(any(x is s for x in ast.walk(l)) for a, l in augs):
                             inits.append(s)
+            if inits and isinstance(augs[0][0], ast.AugAssign) and isinstance(augs[0][0].target, ast.Name):
+                # flow-sensitive for plain names: only the definitions that can reach the first accumulation
+                rd = K.rdefs(repo, fi)
+                reach = {id(rd.def_stmt(d)) for a, l in augs for d in rd.reaching_at_stmt(a, key) if rd.def_stmt(d) is not None}
+                inits = [s for s in inits if id(s) in reach]
             if not inits:
                 continue  # defined and augmented inside the same iteration: a per-item temporary, not an accumulator
             for s, l in augs:
